@@ -57,14 +57,16 @@ pub struct Style {
     pub decl: bool,
     /// <x></x> instead of <x/>
     pub empt: bool,
+    /// a comment in the middle of token-valued text: the character content of the element is the same
+    pub cmtmid: bool,
 }
 
-pub const FLAGS: [&str; 7] = ["pfx", "ws", "pad", "cmt", "attr", "decl", "empt"];
+pub const FLAGS: [&str; 8] = ["pfx", "ws", "pad", "cmt", "attr", "decl", "empt", "cmtmid"];
 
 impl Style {
     pub fn from_flags(flags: &[String]) -> Style {
         let has = |f: &str| flags.iter().any(|x| x == f);
-        Style { pfx: has("pfx"), ws: has("ws"), pad: has("pad"), cmt: has("cmt"), attr: has("attr"), decl: has("decl"), empt: has("empt") }
+        Style { pfx: has("pfx"), ws: has("ws"), pad: has("pad"), cmt: has("cmt"), attr: has("attr"), decl: has("decl"), empt: has("empt"), cmtmid: has("cmtmid") }
     }
 }
 
@@ -134,6 +136,15 @@ fn render_node(n: &Node, st: &Style, depth: usize, root: bool, parent_ns: &str, 
                     out.push_str("\n   ");
                 }
                 for k in &e.kids {
+                    if e.token && st.cmtmid {
+                        if let Node::Text(t) = k {
+                            let mid = t.char_indices().nth(t.chars().count() / 2).map(|(i, _)| i).unwrap_or(0);
+                            out.push_str(&esc(&t[..mid]));
+                            out.push_str("<!-- mid -->");
+                            out.push_str(&esc(&t[mid..]));
+                            continue;
+                        }
+                    }
                     render_node(k, st, depth + 1, false, &my_ns, out);
                 }
                 if e.token && st.pad {
